@@ -33,6 +33,8 @@ def classify(case):
 def run_case(ctx, case):
     if "a" in case and "b" in case:
         return run_lockstep(ctx, case)
+    if "take" in case:
+        return run_rewrap(ctx, case)
     spec, columns = case["spec"], case["columns"]
     F = obs.spec_cells(spec)
     f = obs.build(spec)
@@ -74,6 +76,35 @@ def run_case(ctx, case):
               got=[obs.show(g) for g in got], detail=problems, nontrivial=nontrivial)
     if obs.cells(f) != F:
         ctx.judge(False, case, mech="C11:operand-changed")
+
+
+def run_rewrap(ctx, case):
+    """the same object wrapped again after an earlier wrap was only partly consumed"""
+    spec, columns, k = case["spec"], case["columns"], case["take"]
+    f = obs.build(spec)
+    want = cols.reference_wrap(obs.spec_cells(spec), columns)
+    nz = lambda g: [[c for c in l if cols.w(c[0])] for l in g if any(cols.w(c[0]) for c in l)]
+    try:
+        it = f.width_aware_splitlines(columns)
+        first = []
+        for _ in range(k):
+            try:
+                first.append(obs.cells(next(it)))
+            except StopIteration:
+                break
+        second = [obs.cells(l) for l in f.width_aware_splitlines(columns)]
+        third = [obs.cells(l) for l in f.width_aware_splitlines(columns)]
+        rest = [obs.cells(l) for l in it]
+    except obs.ObservationFailed as ex:
+        ctx.judge(False, case, mech="C11:incoherent-result", got=str(ex))
+        return
+    except Exception as ex:  # noqa
+        ctx.judge(False, case, mech="C11:rewrap", got=repr(ex))
+        return
+    ok = nz(second) == want and nz(third) == want and nz(first + rest) == want
+    ctx.judge(ok, case, ("C11", "rewrap", repr(case)), "C11:rewrap", [obs.show(l) for l in want],
+              {"abandoned+rest": [obs.show(l) for l in first + rest], "second": [obs.show(l) for l in second],
+               "third": [obs.show(l) for l in third]})
 
 
 def run_lockstep(ctx, case):
@@ -142,3 +173,6 @@ def run(ctx):
                       "columns": rng.randint(2, 5)}
         run_lockstep(ctx, {"a": mk(), "b": mk()})
         ctx.count("lockstep_pairs")
+        c = mk()
+        run_rewrap(ctx, dict(c, take=rng.randint(0, 3)))
+        ctx.count("rewraps")
